@@ -45,9 +45,8 @@ def _library_site(th):
     while fr is not None:
         fn = os.path.realpath(fr.f_code.co_filename)
         if fn.startswith(os.path.join(repo, 'j1939') + os.sep):
+            # innermost library frame (harness callbacks invoked by the library are trivial and cannot loop)
             return '%s:%s' % (os.path.basename(fn), fr.f_code.co_name)
-        if '/j1939sim/' in fn:
-            return ''       # the innermost non-stdlib frame is the simulator itself
         fr = fr.f_back
     return ''
 
